@@ -28,7 +28,7 @@ def short_cfg(cfg):
         return d
     return {'levels': [{'mws': [mw(m) for m in l['mws']], 'resources': l['resources']} for l in cfg['levels']],
             'prefix_bindings': [l.get('prefix_bindings') or [] for l in cfg['levels'][:-1]],
-            'build_via_add': bool(cfg.get('build_via_add')), 'render_via_factory': bool(cfg['route'].get('render_via_factory')), 'siblings': [[m['mid'] for m in sb['mws']] + (['embedded'] if sb.get('embedded') else []) for sb in (cfg['route'].get('siblings') or [])], 'decoys': cfg['route'].get('decoys') or [], 'resp_flavour': cfg.get('resp_flavour') or {}, 'exc_flavour': cfg.get('exc_flavour') or {}, 'ctx_flavour': cfg.get('ctx_flavour'),
+            'build_via_add': bool(cfg.get('build_via_add')), 'render_via_factory': bool(cfg['route'].get('render_via_factory')), 'siblings': [[m['mid'] for m in sb['mws']] + (['embedded'] if sb.get('embedded') else []) for sb in (cfg['route'].get('siblings') or [])], 'decoys': cfg['route'].get('decoys') or [], 'resp_flavour': cfg.get('resp_flavour') or {}, 'exc_flavour': cfg.get('exc_flavour') or {}, 'ctx_flavour': cfg.get('ctx_flavour'), 'rebound_elsewhere': bool(cfg.get('rebound_elsewhere')),
             'route': {'bindings': cfg['route']['bindings'], 'resources': cfg['route']['resources'],
                       'mws': [mw(m) for m in cfg['route']['mws']], 'endpoint': f(cfg['route']['endpoint']),
                       'render': f(cfg['route'].get('render')), 'methods': cfg['route'].get('methods')},
@@ -235,6 +235,11 @@ def evaluate(cfg, requests=('hit', 'hit2', 'hit-slashes', 'hit-absent', 'hit-abs
                     if s == ['route']:
                         e[2][p] = route_sym
         act = tr['events']
+        if tr.get('undeclared'):
+            findings.append(Finding('C02', 'C02/undeclared-name-passed', '%s %s: %s received names it does not declare: %r'
+                                    % (method, path, tr['undeclared'][0][0], tr['undeclared'][0][1])))
+        if stats is not None and tr.get('varkw_functions'):
+            stats['functions-with-var-keyword-parameters-called'] += tr['varkw_functions']
         if stats is not None:
             for e in act:
                 if e[0] == 'enter':
